@@ -5,7 +5,10 @@ import "github.com/MichaelMure/git-bug/zzverif/vreg"
 // DeriveId (M-PACK): registered opaque blobs get their registered id (an uninterpreted,
 // injective stand-in for SHA-256); everything else is hashed for real.
 func DeriveId(data []byte) Id {
-	if id, ok := vreg.BlobIds[string(data)]; ok {
+	vreg.Mu.Lock()
+	id, ok := vreg.BlobIds[string(data)]
+	vreg.Mu.Unlock()
+	if ok {
 		return Id(id)
 	}
 	return DeriveId__orig(data)
